@@ -44,7 +44,8 @@ class Unwritable:
 def spoil(rng, r):
     """make some observer fail"""
     r = dict(r)
-    how = rng.choice(["none", "none", "md_none", "md_obj", "md_lock", "md_bigint", "dangling", "node_md_none"])
+    how = rng.choice(["none", "none", "md_none", "md_obj", "md_lock", "md_bigint", "dangling", "node_md_none", "md_is_none",
+                      "node_md_is_none", "md_proxy"])
     if how == "md_none":
         r["metadata"] = {"bad": None, "ok": 1}
     elif how == "md_obj":
@@ -53,6 +54,16 @@ def spoil(rng, r):
         r["metadata"] = {"lock": "__LOCK__"}
     elif how == "md_bigint":
         r["metadata"] = {"big": 2 ** 70}
+    elif how == "md_is_none":
+        r["metadata"] = "__NOMD__"            # metadata=None instead of a dictionary
+    elif how == "md_proxy":
+        r["metadata"] = "__PROXY__"           # a read-only mapping that is not a dict
+    elif how == "node_md_is_none" and r["nodes"]:
+        k = rng.choice(list(r["nodes"]))
+        n = dict(r["nodes"][k])
+        if n["k"] not in ("NIRGraph", "__alias__"):
+            n["args"] = dict(n["args"]); n["args"]["metadata"] = "__NOMD__"
+            r["nodes"] = dict(r["nodes"]); r["nodes"][k] = n
     elif how == "dangling":
         r["edges"] = list(r["edges"]) + [("nowhere", "ghost")]
     elif how == "node_md_none" and r["nodes"]:
@@ -79,6 +90,16 @@ def gen(rng, tier):
             r["edges"] = list(r["edges"]) + [(k, k), (rng.choice(list(r["nodes"])), k)]
             seq.insert(rng.randrange(len(seq) + 1), "check")
         cases.append({"kind": "observe", "recipe": V.enc_recipe(r), "how": how, "seq": seq, "stale": stale})
+    # shape annotations with a NEGATIVE entry (an "unknown batch size" convention) on edges between nodes of equal rank
+    for _ in range(6 if tier == "quick" else 60):
+        b = rng.choice([2, 5])
+        r = {"k": "NIRGraph", "nodes": {
+            "in": {"k": "Input", "args": {"input_type": np.array([-1, 3], dtype=np.int64)}},
+            "aff": {"k": "Affine", "args": {"weight": np.ones((b, 2, 3), dtype="float32"), "bias": np.ones(2, dtype="float32")}},
+            "out": {"k": "Output", "args": {"output_type": np.array([rng.choice([-1, b]), 2], dtype=np.int64)}}},
+            "edges": rng.choice([[("in", "aff"), ("aff", "out")], [("aff", "out"), ("in", "aff"), ("in", "out")]])}
+        cases.append({"kind": "observe", "recipe": V.enc_recipe(r), "how": "negdim", "seq": [rng.choice(OBS + ["check", "check"]) for _ in range(rng.randint(1, 4))] + ["check"],
+                      "stale": False})
     # graphs with tensors of several MiB, read back twice from a PATH (not a buffer): the results must not be windows onto the file
     for _ in range(2 if tier == "quick" else 12):
         cases.append({"kind": "bigread", "n": rng.choice([600, 515, 731]), "dt": rng.choice(["float64", "float32", "int64"]),
@@ -102,6 +123,11 @@ def materialise(x):
         return Unwritable()
     if isinstance(x, str) and x == "__LOCK__":
         return threading.Lock()
+    if isinstance(x, str) and x == "__NOMD__":
+        return None
+    if isinstance(x, str) and x == "__PROXY__":
+        import types
+        return types.MappingProxyType({"frozen": 1})
     return x
 
 
